@@ -22,7 +22,7 @@ Print Assumptions C12_overwrite_save_refuted.
 Theorem C12_only_reachable_emitted :
   forall p r m inputs outputs, build_checked p r = inl m ->
   all_vars (r_inputs r) = Some inputs -> all_vars (r_outputs r) = Some outputs ->
-  forall u, In u (srcs_graph (mmain m)) <-> In u (reachable (with_main p (Some (main_args inputs)) outputs) 0).
+  forall u, In u (srcs_graph (mmain m)) <-> In u (reachable (final_prog p r inputs outputs) 0).
 Proof. intros p r m i o H Hi Ho. apply build_checked_inv in H. destruct H as [_ Hv].
   exact (proj2 (emitted_exactly_once p r m i o Hi Ho Hv)). Qed.
 Print Assumptions C12_only_reachable_emitted.
